@@ -2,9 +2,17 @@
 // (C03, C04: family txn; C34: linz; C05: txnsched; C37: close).
 package main
 
-import "verifharness/internal/corr"
+import (
+	"os"
+
+	"verifharness/internal/corr"
+)
 
 func main() {
+	if len(os.Args) > 1 && os.Args[1] == "reopen-child" {
+		reopenChild(os.Args[2:])
+		return
+	}
 	corr.Main(map[string]corr.Family{
 		"txn":      runTxn,
 		"linz":     runLinz,
